@@ -47,6 +47,21 @@ def _field(variant, dtype, rid):
     return a
 
 
+def _layout(f, k):
+    """the same array values in a different memory layout"""
+    if f.ndim < 2 or k == 0:
+        return f
+    if k == 1:
+        return np.asfortranarray(f)
+    if k == 2:
+        # a transposed view of the transposed copy: same shape and values, reversed strides
+        return np.ascontiguousarray(f.T).T
+    big = np.zeros(tuple(2 * n for n in f.shape), dtype=f.dtype)
+    view = big[tuple(slice(None, None, 2) for _ in f.shape)]
+    view[...] = f
+    return view
+
+
 def _time(rid):
     return float(np.float64(rid) * 0.37 - 1.25)
 
@@ -209,7 +224,9 @@ def replay(hist, final, variant, workdir, H, R, rng, mode='pick', newproc=False)
                     rid = e['id']
                     t, f = _time(rid), _field(variant, dtype, rid)
                     written[rid] = (t, f)
-                    objs[e['h']].addField(t, f)
+                    # the field is a VALUE: the same values in another memory layout (Fortran order, an axis-permuted view, a
+                    # strided view of a larger array) must give the same file
+                    objs[e['h']].addField(t, _layout(f, (variant['seed'] + rid) % 4))
                     last_rec = ('r', 8 + f.nbytes)
                 elif op == 'done':
                     pass
